@@ -229,164 +229,24 @@ func ruleC05_2(c *Ctx) {
 	// over the per-step map itself, or a range over the complete list of its keys (collected by an exhaustive range
 	// over the map; possibly sorted), the element being looked up in the map; the tail keys[1:] is complete when the
 	// reference link is the one under keys[0].
-	type cmpLoop struct {
-		header *ssa.BasicBlock
-		isIter func(v ssa.Value) bool
-	}
-	var loops []cmpLoop
-	for _, b := range f.Blocks {
-		for _, in := range b.Instrs {
-			rg, ok := in.(*ssa.Range)
-			if !ok || rg.X != stepMap {
-				continue
-			}
-			var nx *ssa.Next
-			for _, r := range *rg.Referrers() {
-				if n, ok := r.(*ssa.Next); ok {
-					nx = n
-				}
-			}
-			if nx == nil {
-				continue
-			}
-			iterVal := extractOf(nx, 2)
-			loops = append(loops, cmpLoop{nx.Block(), func(v ssa.Value) bool {
-				return iterVal != nil && derives(v, func(x ssa.Value) bool { return x == iterVal }, true)
-			}})
-		}
-	}
-	// key-list loops
-	isKeyList := func(K ssa.Value) bool {
-		for _, ml := range mapLoops(f) {
-			if ml.rng.X != stepMap || ml.key == nil {
-				continue
-			}
-			exhaustive := true
-			for bb := range ml.body {
-				if bb == ml.header || !reaches(bb, ml.header) {
-					continue
-				}
-				for _, sc := range bb.Succs {
-					if !ml.body[sc] && !c.failing(sc) {
-						exhaustive = false
-					}
-				}
-			}
-			if !exhaustive {
-				continue
-			}
-			for bb := range ml.body {
-				for _, in := range bb.Instrs {
-					k, ok := in.(*ssa.Call)
-					if !ok || calleeName(k) != "builtin:append" {
-						continue
-					}
-					if !derives(k.Call.Args[1], func(x ssa.Value) bool { return x == ml.key }, false) {
-						continue
-					}
-					uncond := false
-					if okv := extractOf(ml.next, 0); okv != nil {
-						for _, cu := range condUsers(okv, false) {
-							if branchTaken(cu, true) == bb {
-								uncond = true
-							}
-						}
-					}
-					if uncond && derives(K, func(x ssa.Value) bool { return x == ssa.Value(k) }, false) {
-						return true
-					}
+	loops, tailRefs := c.coverLoops(f, stepMap)
+	for _, tr := range tailRefs {
+		// keys[1:] is complete only against the reference under keys[0]
+		refOK := false
+		for _, call := range callsIn(f, "reflect.DeepEqual") {
+			for _, a := range call.Common().Args {
+				if tr.isFirst(a) {
+					refOK = true
 				}
 			}
 		}
-		return false
-	}
-	for _, l := range rangeLoops(f) {
-		if l.isMap {
-			continue
-		}
-		// the ranged slice: the value whose len bounds the induction variable
-		var ranged ssa.Value
-		var idx ssa.Value
-		for _, in := range l.header.Instrs {
-			ph, ok := in.(*ssa.Phi)
-			if !ok || ph.Comment != "rangeindex" {
-				continue
-			}
-			for _, r := range *ph.Referrers() {
-				if inc, ok := r.(*ssa.BinOp); ok && inc.Op == token.ADD {
-					idx = inc
-					for _, rr := range *inc.Referrers() {
-						if cmp, ok := rr.(*ssa.BinOp); ok && cmp.Op == token.LSS {
-							if k, ok := cmp.Y.(*ssa.Call); ok && calleeName(k) == "builtin:len" {
-								ranged = k.Call.Args[0]
-							}
-						}
-					}
-				}
-			}
-		}
-		if ranged == nil || idx == nil {
-			continue
-		}
-		K, low := resolve(ranged, nil), int64(0)
-		if sl, ok := K.(*ssa.Slice); ok && sl.High == nil {
-			if sl.Low != nil {
-				k, isK := constInt(sl.Low)
-				if !isK {
-					continue
-				}
-				low = k
-			}
-			K = resolve(sl.X, sl)
-		}
-		if low > 1 || !isKeyList(K) {
-			continue
-		}
-		rangedV, idxV, lowV, KV := ranged, idx, low, K
-		loops = append(loops, cmpLoop{l.header, func(v ssa.Value) bool {
-			// an element of the per-step map looked up under the current key of the list
-			return derives(v, func(x ssa.Value) bool {
-				lk, ok := x.(*ssa.Lookup)
-				if !ok || lk.X != stepMap {
-					return false
-				}
-				return derives(lk.Index, func(y ssa.Value) bool {
-					ia, ok := y.(*ssa.IndexAddr)
-					return ok && ia.Index == idxV && resolve(ia.X, ia) == resolve(rangedV, nil)
-				}, false)
-			}, true)
-		}})
-		if lowV == 1 {
-			// keys[1:] is complete only against the reference under keys[0]
-			refOK := false
-			for _, call := range callsIn(f, "reflect.DeepEqual") {
-				for _, a := range call.Common().Args {
-					if derives(a, func(x ssa.Value) bool {
-						lk, ok := x.(*ssa.Lookup)
-						if !ok || lk.X != stepMap {
-							return false
-						}
-						return derives(lk.Index, func(y ssa.Value) bool {
-							ia, ok := y.(*ssa.IndexAddr)
-							if !ok || resolve(ia.X, ia) != KV {
-								return false
-							}
-							k0, isK := constInt(ia.Index)
-							return isK && k0 == 0
-						}, false)
-					}, true) {
-						refOK = true
-					}
-				}
-			}
-			c.check(refOK, R, fn, "the tail keys[1:] is compared with the link under keys[0]", l.pos, "reference = linksPerStep[keys[0]]", "the compare loop skips the first key but the reference link is not the one under that key: one counted link is never compared")
-		}
+		c.check(refOK, R, fn, "the tail keys[1:] is compared with the link under keys[0]", tr.pos, "reference = linksPerStep[keys[0]]", "the compare loop skips the first key but the reference link is not the one under that key: one counted link is never compared")
 	}
 	nLoops := 0
 	for _, cl := range loops {
 		{
 			header := cl.header
-			isIter := cl.isIter
+			isIter := cl.isElem
 			var eqM, eqP []*ssa.Call
 			for _, call := range callsIn(f, "reflect.DeepEqual") {
 				cc := call.(*ssa.Call)
@@ -1802,4 +1662,173 @@ func ruleC05_5(c *Ctx) {
 		}
 		c.check(n >= 2, R, fn, "calls that receive the verified links up to the agreement check", red.call.Pos(), fmt.Sprintf("%d calls analysed", n), fmt.Sprintf("only %d calls receive the verified links", n))
 	}
+}
+
+// ---------------------------------------------------------------------------
+// loops that visit every element of a map
+
+// coverLoop: a loop whose iterations cover every element of map m: a range over m itself, or a range over the
+// complete list of its keys (collected by an exhaustive range over m with one unconditional append per key; possibly
+// sorted) whose body looks the element up in m. isElem(v): v derives from the current element.
+type coverLoop struct {
+	header    *ssa.BasicBlock
+	isElem    func(v ssa.Value) bool
+	exhausted func(blk *ssa.BasicBlock) bool // the loop is known to have run to exhaustion at blk
+}
+
+// tailRef: a key-list loop that starts at keys[1:]; it is complete only if the value the elements are compared with is
+// the element under keys[0] (isFirst).
+type tailRef struct {
+	pos     token.Pos
+	isFirst func(v ssa.Value) bool
+}
+
+func (c *Ctx) coverLoops(f *ssa.Function, m ssa.Value) (loops []coverLoop, tails []tailRef) {
+	for _, b := range f.Blocks {
+		for _, in := range b.Instrs {
+			rg, ok := in.(*ssa.Range)
+			if !ok || rg.X != m {
+				continue
+			}
+			var nx *ssa.Next
+			for _, r := range *rg.Referrers() {
+				if n, ok := r.(*ssa.Next); ok {
+					nx = n
+				}
+			}
+			if nx == nil {
+				continue
+			}
+			iterVal := extractOf(nx, 2)
+			okv := extractOf(nx, 0)
+			loops = append(loops, coverLoop{nx.Block(), func(v ssa.Value) bool {
+				return iterVal != nil && derives(v, func(x ssa.Value) bool { return x == iterVal }, true)
+			}, func(blk *ssa.BasicBlock) bool { return okv != nil && c.condAt(okv, false, blk) }})
+		}
+	}
+	isKeyList := func(K ssa.Value) bool {
+		for _, ml := range mapLoops(f) {
+			if ml.rng.X != m || ml.key == nil {
+				continue
+			}
+			exhaustive := true
+			for bb := range ml.body {
+				if bb == ml.header || !reaches(bb, ml.header) {
+					continue
+				}
+				for _, sc := range bb.Succs {
+					if !ml.body[sc] && !c.failing(sc) {
+						exhaustive = false
+					}
+				}
+			}
+			if !exhaustive {
+				continue
+			}
+			for bb := range ml.body {
+				for _, in := range bb.Instrs {
+					k, ok := in.(*ssa.Call)
+					if !ok || calleeName(k) != "builtin:append" {
+						continue
+					}
+					if !derives(k.Call.Args[1], func(x ssa.Value) bool { return x == ml.key }, false) {
+						continue
+					}
+					uncond := false
+					if okv := extractOf(ml.next, 0); okv != nil {
+						for _, cu := range condUsers(okv, false) {
+							if branchTaken(cu, true) == bb {
+								uncond = true
+							}
+						}
+					}
+					if uncond && derives(K, func(x ssa.Value) bool { return x == ssa.Value(k) }, false) {
+						return true
+					}
+				}
+			}
+		}
+		return false
+	}
+	for _, l := range rangeLoops(f) {
+		if l.isMap {
+			continue
+		}
+		var ranged, idx ssa.Value
+		var bound *ssa.BinOp
+		for _, in := range l.header.Instrs {
+			ph, ok := in.(*ssa.Phi)
+			if !ok || ph.Comment != "rangeindex" {
+				continue
+			}
+			for _, r := range *ph.Referrers() {
+				if inc, ok := r.(*ssa.BinOp); ok && inc.Op == token.ADD {
+					idx = inc
+					for _, rr := range *inc.Referrers() {
+						if cmp, ok := rr.(*ssa.BinOp); ok && cmp.Op == token.LSS {
+							if k, ok := cmp.Y.(*ssa.Call); ok && calleeName(k) == "builtin:len" {
+								ranged = k.Call.Args[0]
+								bound = cmp
+							}
+						}
+					}
+				}
+			}
+		}
+		if ranged == nil || idx == nil {
+			continue
+		}
+		K, low := resolve(ranged, nil), int64(0)
+		if sl, ok := K.(*ssa.Slice); ok && sl.High == nil {
+			if sl.Low != nil {
+				k, isK := constInt(sl.Low)
+				if !isK {
+					continue
+				}
+				low = k
+			}
+			K = resolve(sl.X, sl)
+		}
+		if low > 1 || !isKeyList(K) {
+			continue
+		}
+		rangedV, idxV, KV, boundV := ranged, idx, K, bound
+		loops = append(loops, coverLoop{l.header, func(v ssa.Value) bool {
+			return derives(v, func(x ssa.Value) bool {
+				var lkX, lkIdx ssa.Value
+				switch y := x.(type) {
+				case *ssa.Lookup:
+					lkX, lkIdx = y.X, y.Index
+				default:
+					return false
+				}
+				if lkX != m {
+					return false
+				}
+				return derives(lkIdx, func(z ssa.Value) bool {
+					ia, ok := z.(*ssa.IndexAddr)
+					return ok && ia.Index == idxV && resolve(ia.X, ia) == resolve(rangedV, nil)
+				}, false)
+			}, true)
+		}, func(blk *ssa.BasicBlock) bool { return boundV != nil && c.condAt(boundV, false, blk) }})
+		if low == 1 {
+			tails = append(tails, tailRef{l.pos, func(v ssa.Value) bool {
+				return derives(v, func(x ssa.Value) bool {
+					lk, ok := x.(*ssa.Lookup)
+					if !ok || lk.X != m {
+						return false
+					}
+					return derives(lk.Index, func(y ssa.Value) bool {
+						ia, ok := y.(*ssa.IndexAddr)
+						if !ok || resolve(ia.X, ia) != KV {
+							return false
+						}
+						k0, isK := constInt(ia.Index)
+						return isK && k0 == 0
+					}, false)
+				}, true)
+			}})
+		}
+	}
+	return
 }
